@@ -199,6 +199,11 @@ def traces(tier="quick"):
 
 
 def jobs(tier="quick"):
+    from .taylor_cell import jobs_for
+    return _jobs(tier) + jobs_for(['SE3Quat.Ad(exp)'], "C04")
+
+
+def _jobs(tier="quick"):
     G = make_groups()
     info = product_info(["SO3Mrp", "R3"], G)
     grp = info.group
@@ -229,6 +234,6 @@ TRUSTED = [
 ]
 ASSUMPTIONS = [
     "lemma L-ODE (not machine-checked): Phi' = A Phi, Phi(0) = I has the unique solution expm(tA); used to read `flow` + `init` as Ad_exp = expm(ad)",
-    "expad.flow is proved on the closed-form cell of every series coefficient (theta^2 >= 1e-3); the Taylor cell is covered by C06's accuracy bounds",
+    "expad.flow is proved on the closed-form cell of every series coefficient (theta^2 >= 1e-3); the Taylor cell of SE(3) Ad(exp) is bounded rigorously in real arithmetic (taylor-cell obligation)",
     "Ad / bracket on direct products raise NotImplementedError and are out of scope by the property's quantifier (asserted to still raise)",
 ]
